@@ -22,8 +22,20 @@ def gen_refs(rng, tier):
     return out
 
 
+def gen_refs_wide(rng, tier):
+    out = []
+    for _ in range(c05.n_programs(tier, quick=120)):
+        ws = c05.pick_wide_workspace(rng)
+        steps = c05.cursor_steps(["refs"], ws, rng)
+        if rng.random() < 0.2:
+            steps += c05.cursor_steps(["highlight"], ws, rng, both_ends=False)
+        out.append(c05.make_case([(fn, text) for fn, text, _ in ws], steps))
+    return out
+
+
 LEGS = [
     Leg("c06.refs", gen_refs, nontrivial=c05.nontrivial, describe=c05.describe, per_case_s=1.5, skip_model=c05.skip_model),
+    c05.wide_leg("c06.wide", "c06.refs", gen_refs_wide),
 ]
 
 
